@@ -81,7 +81,7 @@ Proof.
   intros Hinv Hs Hks Ha Hk.
   destruct (alloc_spec p h h' L k pl ks a Hinv Hks Ha) as (h1 & Hinv1 & Hsub & Hu' & Hinv' & Hanz & Hsy & Hnot).
   assert (Hs1 : symok h1).
-  { destruct Hsub as [->|Hc]; [exact Hs|]. destruct Hinv as [Hwf _ _ _ _]. eapply collect_symok; eassumption. }
+  { destruct Hsub as [[_ ->]|[_ Hc]]; [exact Hs|]. destruct Hinv as [Hwf _ _ _ _]. eapply collect_symok; eassumption. }
   destruct Hs1 as [S1 S2]. split.
   - intros n b Hn. rewrite Hsy in Hn. destruct (S1 n b Hn) as (c & Hc & Hb & Hkc & Hp). exists c. rewrite Hu'. split; [apply in_or_app; left; exact Hc|auto].
   - intros c Hc Hkc. rewrite Hu' in Hc. rewrite Hsy. apply in_app_or in Hc as [Hc|[<-|[]]]; [apply S2; assumption|]. cbn in Hkc. congruence.
@@ -95,7 +95,7 @@ Proof.
   intros Hinv Hs Hnone Ha.
   destruct (alloc_spec p h h' L KSym name [] a Hinv ltac:(intros x []) Ha) as (h1 & Hinv1 & Hsub & Hu' & Hinv' & Hanz & Hsy & Hnot).
   assert (Hs1 : symok h1 /\ assoc_t name (symtab h1) = None).
-  { destruct Hsub as [->|Hc]; [auto|]. destruct Hinv as [Hwf _ _ _ _]. split; [eapply collect_symok; eassumption|].
+  { destruct Hsub as [[_ ->]|[_ Hc]]; [auto|]. destruct Hinv as [Hwf _ _ _ _]. split; [eapply collect_symok; eassumption|].
     destruct (collect_pieces p h h1 Hc) as (marked & k & f & _ & _ & _ & _ & _ & _ & Hst & _).
     rewrite Hst, drop_freed_spec. destruct (existsb _ f); [reflexivity|exact Hnone]. }
   destruct Hs1 as [[S1 S2] Hn1].
